@@ -166,6 +166,9 @@ def information_weight(data, prior_strength=0.1, approximate_prior=False, target
         column_kl_divergence_func = supervised_column_kl
 
     csc_data = data.tocsc()
+    if csc_data is data:
+        # tocsc() hands back the caller's own matrix; never sort it in place
+        csc_data = data.copy()
     csc_data.sort_indices()
 
     weights = column_weights(
